@@ -426,7 +426,7 @@ func readHeader(scanner *bufio.Scanner) ([]ast.PredicateSym, []int, error) {
 		if arity < 0 || arity > maxArity {
 			return nil, nil, fmt.Errorf("for predicate %v: %w", name, ErrUnsupportedArity)
 		}
-		if numFacts > maxFactsPerPredicate {
+		if numFacts < 0 || numFacts > maxFactsPerPredicate {
 			return nil, nil, fmt.Errorf("for predicate %v: %w", name, ErrTooManyFacts)
 		}
 		preds[i] = ast.PredicateSym{name, arity}
